@@ -277,7 +277,11 @@ func (r *Runner) doStep(act M) error {
 		c.Commit()
 		rep, nc, err := c.ExportImport(r.vo)
 		for k, v := range rep {
-			obs[k] = v
+			if k == "genesis" {
+				extra[k] = v
+			} else {
+				obs[k] = v
+			}
 		}
 		if err != nil {
 			obs["importOk"] = false
